@@ -266,7 +266,14 @@ func CalcBudget(totalSize, firstTierSize int64, o *Options) (
 
 		budgetNumSegments += maxSegmentsPerTier
 		totalSize -= int64(maxSegmentsPerTier) * tierSize
-		tierSize = int64(float64(tierSize) * tierGrowth)
+		nextTierSize := int64(float64(tierSize) * tierGrowth)
+		if nextTierSize <= tierSize && tierGrowth > 1 {
+			// truncation to an integer must not cancel the growth of a
+			// small tier (a tier of size 1 growing by 1.5 would stay at 1
+			// forever and the staircase would climb one unit at a time)
+			nextTierSize = tierSize + 1
+		}
+		tierSize = nextTierSize
 	}
 
 	return budgetNumSegments
